@@ -58,10 +58,10 @@ func c16attempt(seed int64, i int, nkeys int, tier string) (int, *vaa.VAA) {
 		v.Signatures = append(v.Signatures, sg)
 	}
 	n := 40 + r.Intn(400)
-	switch x := r.Intn(400); {
-	case x < 12:
-		n = 4096 + r.Intn(60000)
-	case x == 12 && tier == "thorough":
+	switch x := r.Intn(4000); {
+	case x < 40:
+		n = 4096 + r.Intn(28000)
+	case x == 40 && tier == "thorough":
 		n = 1<<20 + r.Intn(300000) // above badger's value threshold: stored in the value log
 	}
 	v.Payload = make([]byte, n)
@@ -192,9 +192,9 @@ func TestVerifCrash(t *testing.T) {
 	defer w.Flush()
 	r := rand.New(rand.NewSource(seed ^ 0x16c16c16))
 
-	nstores, cycles, quota, nkeys := 2, 8, 1200, 900
+	nstores, cycles, quota, nkeys := 2, 10, 1200, 900
 	if tier == "thorough" {
-		nstores, cycles, quota, nkeys = 3, 40, 2500, 6000
+		nstores, cycles, quota, nkeys = 4, 40, 1500, 2500
 	}
 	for s := 0; s < nstores; s++ {
 		cid := fmt.Sprintf("crash%d", s+1)
@@ -207,6 +207,7 @@ func TestVerifCrash(t *testing.T) {
 		fmt.Fprintf(w, "begin %s\n", cid)
 		next := 0
 		failed := false
+		attsOf := map[int][]int{} // key -> attempt indices, oldest first
 		for c := 1; c <= cycles && !failed; c++ {
 			base := []string{"VERIF_CRASH_DIR=" + dir, "VERIF_CRASH_SEED=" + strconv.FormatInt(sseed, 10), "VERIF_CRASH_NKEYS=" + strconv.Itoa(nkeys), "VERIF_TIER=" + tier}
 			// ---- store child, killed mid-stream
@@ -295,6 +296,7 @@ func TestVerifCrash(t *testing.T) {
 				if acked[i] {
 					a = 1
 				}
+				attsOf[k] = append(attsOf[k], i)
 				fmt.Fprintf(w, "att %s i=%d key=%d ack=%d val=%s\n", cid, i, k, a, hex.EncodeToString(val))
 			}
 			fmt.Fprintf(w, "cyc %s cycle=%d start=%d acked=%d killafter=%d delayus=%d idle=%v storefailures=%d\n", cid, c, next, len(acked), killAfter, delay.Microseconds(), idle, failedStores)
@@ -356,7 +358,24 @@ func TestVerifCrash(t *testing.T) {
 				p := strings.Split(rc, " ")
 				line := fmt.Sprintf("rec %s cycle=%d key=%s res=%s", cid, c, p[0], p[1])
 				if p[1] == "ok" {
-					line += " val=" + p[2]
+					same := -1
+					if len(p[2]) > 2*2048 {
+						// a big answer: name the attempt it is byte-identical to instead of repeating the bytes in every cycle
+						k, _ := strconv.Atoi(p[0])
+						idxs := attsOf[k]
+						for j := len(idxs) - 1; j >= 0 && same < 0; j-- {
+							_, v := c16attempt(sseed, idxs[j], nkeys, tier)
+							val, _ := v.Marshal()
+							if hex.EncodeToString(val) == p[2] {
+								same = idxs[j]
+							}
+						}
+					}
+					if same >= 0 {
+						line += " same=" + strconv.Itoa(same)
+					} else {
+						line += " val=" + p[2]
+					}
 				}
 				fmt.Fprintln(w, line)
 			}
